@@ -138,7 +138,7 @@ def replay(ctx, spec, obj):
     ml = None
     if "MS" in f:
         line = "r\tjson\t" + f["MS"] + "\t" + f.get("ITREE", "-") + "\n"
-        exe = os.path.join(C.LEAN, ".lake", "build", "bin", "vdriver")
+        exe = C.vdriver_exe()
         rc2, o2 = C.sh([exe], input=line, timeout=120)
         ml = o2.strip().split("\t", 1)[1] if "\t" in o2 else None
     if il.startswith("COMPILE") or il.startswith("RUN "):
